@@ -181,6 +181,15 @@ class HyperCMAESSampler:
 
         num_params = sum(p.size for p in self.params)
 
+        self._trial_counter = 0
+        self._trial_store = {}
+        self._batch = []
+
+        if num_params == 0:
+            # method with no hyper parameters (e.g. 'random'), nothing to tune
+            self.opt = None
+            return
+
         if separable:
             CMA = cmaes.SepCMA
         else:
@@ -194,11 +203,10 @@ class HyperCMAESSampler:
             **kwargs,
         )
 
-        self._trial_counter = 0
-        self._trial_store = {}
-        self._batch = []
-
     def ask(self):
+        if self.opt is None:
+            return None, {}
+
         # raw vector
         x = self.opt.ask()
 
@@ -220,6 +228,9 @@ class HyperCMAESSampler:
         return trial_number, params
 
     def tell(self, trial_number, value):
+        if self.opt is None:
+            return
+
         # retrieve raw vector
         x = self._trial_store.pop(trial_number)
         # wait until batch has reached population size
